@@ -13,7 +13,7 @@ func zzContainsU16(l []uint16, v uint16) bool {
 //verif:harness C12 check_server_hello_or_hrr unwind=200
 //verif:stub (*utls.Conn).sendAlert zzStubSendAlert
 //verif:expect accepted rejected
-//verif:doc checkServerHelloOrHRR from an arbitrary state: the ClientHello offers three arbitrary cipher suites and a session id of 0..2 arbitrary bytes; every ServerHello field is arbitrary (slices of length 0..1); a previous HRR suite may be set. If it returns nil the suite was offered, is a TLS 1.3 suite, equals the HRR suite if any, the session id was echoed and compression is null; on error an alert was sent and Conn.cipherSuite is untouched.
+//verif:doc checkServerHelloOrHRR from an arbitrary state: the ClientHello offers three arbitrary cipher suites and a session id of 0..2 arbitrary bytes; every ServerHello field is arbitrary (slices of length 0..1, the echoed session id independently 0..2 bytes); a previous HRR suite may be set. If it returns nil the suite was offered, is a TLS 1.3 suite, equals the HRR suite if any, the session id was echoed and compression is null; on error an alert was sent and Conn.cipherSuite is untouched.
 func zzC12CheckServerHelloOrHRR() {
 	zzAlerts = nil
 	c := &Conn{}
@@ -21,6 +21,8 @@ func zzC12CheckServerHelloOrHRR() {
 	hello.sessionId = verifBytes("sid", verifChoice("sidlen", 3))
 	sh := &serverHelloMsg{}
 	verifFill("sh", sh, verifChoice("shn", 2))
+	// the echoed session id has its own length, independent of the other slices
+	sh.sessionId = verifBytes("server-sid", verifChoice("server-sidlen", 3))
 	hs := &clientHandshakeStateTLS13{c: c, hello: hello, serverHello: sh}
 	prev := verifChoice("prev", 4)
 	if prev > 0 {
